@@ -19,7 +19,7 @@ STATE_CLAUSES = {
     "C05": ["placement", "loc", "mach_hold", "agv_hold", "claims", "capacity", "flags", "feasible", "no_overdue",
             "past", "busy_op", "proc_inner", "output_done", "outages", "outage_nonneg", "agv_phase", "idle_unclaimed",
             "sto_ok"],
-    "C07": ["agv_phase", "agv_hold", "no_overdue"],
+    "C07": ["agv_phase", "agv_hold", "no_overdue", "travel_gap"],
     "C08": ["capacity"],
     "C09": ["busy_op"],
     "C10": ["outages", "outage_nonneg"],
@@ -141,11 +141,11 @@ def _worker(args):
     for k, pos, name, s in sv[:50]:
         out["violations"].append({"kind": "state:" + name, "detail": "clause %s false at %s" % (name, pos),
                                   "replay": replay_of(k, state=s, position=pos)})
-    if prop in ("C01", "C04", "C03", "C02"):
+    if prop in ("C01", "C04", "C03", "C02", "C07"):
         # hypotheses of the C01/C04 (and C03_claims_*) theorems on the compiled initial state of every episode: fresh (C04: fresh2); for the
         # unconditional (flex) theorems also fresh2, the store clauses of wfs_b and nodep - reported when the instance
         # has unordered machine post-buffers (the class those theorems speak about)
-        init_clauses = {"C01": ["fresh"], "C04": ["fresh2"], "C03": ["claims", "nodep"], "C02": []}[prop]
+        init_clauses = {"C01": ["fresh"], "C04": ["fresh2"], "C03": ["claims", "nodep"], "C02": [], "C07": ["agv_phase"]}[prop]
         flex_hyps = ["placement", "loc", "capacity", "flags", "fresh2", "nodep"]
         nfresh = nflex = 0
         for e in eps:
@@ -405,7 +405,7 @@ def sm_check(ctx, n_quick=160, n_thorough=6000, custom_p=0.15, extra=None, worke
     })
     if prop == "C20":
         ctx.coverage["step_inputs_compared_with_their_deep_copy"] = tot["step_inputs_snapshotted"]
-    if prop in ("C01", "C04", "C03", "C02"):
+    if prop in ("C01", "C04", "C03", "C02", "C07"):
         ctx.coverage["initial_states_checked_against_theorem_hypotheses"] = tot["fresh_initial_states"]
         ctx.coverage["episodes_on_instances_with_unordered_post_buffers"] = tot["flex_episodes"]
     ctx.search_note = ("monitors (extracted theorem predicates) evaluated on %d implementation states and %d micro-events of "
